@@ -66,11 +66,14 @@ func bindOnce(params []*runtimev2.Param, src string) (res string) {
 			return runtimev2.CheckPassParam(ctx, expr, params)
 		},
 		Call: func(ctx *runtimev2.Task, expr *ast.CallExpr) *errchain.PlError {
+			// (the binding of the call that finishes last is reported: for nested calls of f, the outermost)
+			mine := []string{}
+			defer func() { got = mine }()
 			for i := range params {
 				v, err := runtimev2.GetParam(ctx, expr, params, i)
 				switch {
 				case err != nil:
-					got = append(got, "error")
+					mine = append(mine, "error")
 				case params[i].Variable:
 					l, _ := v.([]any)
 					es := []string{}
@@ -81,15 +84,17 @@ func bindOnce(params []*runtimev2.Param, src string) (res string) {
 							es = append(es, fmt.Sprint(x))
 						}
 					}
-					got = append(got, "list["+strings.Join(es, " ")+"]")
+					mine = append(mine, "list["+strings.Join(es, " ")+"]")
 				case v == "DEF":
-					got = append(got, "default")
+					mine = append(mine, "default")
 				case v == nil:
-					got = append(got, "value0")
+					mine = append(mine, "value0")
 				default:
-					got = append(got, "value"+fmt.Sprint(v))
+					mine = append(mine, "value"+fmt.Sprint(v))
 				}
 			}
+			// f yields 0, so that a call of f can stand among the arguments of another
+			ctx.Regs.ReturnAppend(runtimev2.V{V: int64(0), T: ast.Int})
 			return nil
 		},
 		Desc: runtimev2.FnDesc{Name: "f", Params: params},
@@ -180,6 +185,31 @@ func genC19(e *emitter, tier string, seed int64) {
 		}
 	}
 	recP(nil)
+	// a call of f among the variadic arguments of a call of f (after an earlier variadic call in the same
+	// run): every call keeps the arguments given to it, in order
+	for _, ps := range [][]pspec{{{"v", false, true}}, {{"a", false, false}, {"v", false, true}}, {{"a", false, false}, {"b", true, false}, {"v", false, true}}} {
+		params := mkParams(ps)
+		pj := []any{}
+		for _, p := range ps {
+			pj = append(pj, []any{hx(p.Name), p.Def, p.Var})
+		}
+		results := []any{}
+		for _, nc := range []struct {
+			src  string
+			vals []int
+		}{
+			{"f(9, 9)\nf(1, f(7, 8), 3)\n", []int{1, 0, 3}}, {"f(9)\nf(1, 2, f(7, 8, 9), 4)\n", []int{1, 2, 0, 4}}, {"f(9, 9, 9)\nf(1, f(7, f(8, 9)), 3)\n", []int{1, 0, 3}},
+			{"f(1, f(7, 8))\n", []int{1, 0}}, {"for i = 0; i < 2; i = i + 1 {\n  f(1, 2, 3, f(7, 8), 5)\n}\n", []int{1, 2, 3, 0, 5}}, {"f(9, 9)\nf(1, 2, 3)\n", []int{1, 2, 3}},
+		} {
+			aj := []any{}
+			for _, v := range nc.vals {
+				aj = append(aj, []any{hx(""), v})
+			}
+			results = append(results, []any{aj, bindOnce(params, nc.src)})
+		}
+		e.stat("nested-variadic")
+		e.emit(map[string]any{"k": "bind", "params": pj, "defok": runtimev2.CheckFnParamDef(params) == nil, "calls": results})
+	}
 	for _, n := range extraNames {
 		for _, k := range kinds {
 			emitList([]pspec{{n, k.Def, k.Var}})
